@@ -381,6 +381,20 @@ func DirOverwritten() {
 			vrt.Assert(!isBad(tm.Offset), "GetByTime never returns an overwritten record")
 		}
 		_, kms, err := lg.ConsumeByKey(r.Key, klevdb.OffsetOldest, 4)
+		// the answer would be the live messages with that key of the first segment that has one
+		firstSeg := -1
+		wouldBad := false
+		for _, x := range live {
+			if vrt.BytesEqual(x.Key, r.Key) {
+				if firstSeg == -1 {
+					firstSeg = segOf(x.Off)
+				}
+				if segOf(x.Off) == firstSeg {
+					wouldBad = vrt.Or(wouldBad, isBad(x.Off))
+				}
+			}
+		}
+		vrt.Assert(vrt.Implies(wouldBad, err != nil), "a ConsumeByKey whose answer would include an overwritten record fails")
 		if err == nil {
 			for _, m := range kms {
 				i := kit.LowerBound(live, m.Offset)
